@@ -372,6 +372,8 @@ def fam_sdpa_lowering(st, probe):
             # a mask that ENLARGES the batch / head dim of the scores (legal NumPy broadcast; no fused operator can express it)
             mask = pick(rng, [[3, 1, S, T], [2, H, 1, T]]) if H > 1 or rng.randrange(2) else [3, 1, S, T]
             mask_finding = "C19:mha:mask-batch-exceeds-query-batch"
+            if sym == "B":          # the score batch is symbolic: fix 9ed3615 compares nothing (known; repair ready/C19_08)
+                mask_finding = "C19:sdpa:static-mask-dim-against-symbolic-score-dim"
         if mask is not None:
             score = g.op("Add", [score, g.inp("mask", dt, mask)])
         y = g.op("MatMul", [g.op("Softmax", [score], axis=-1), v])
@@ -403,7 +405,7 @@ def fam_sdpa_lowering(st, probe):
         if fired is not None and "decl" in obs:
             dq, dk, dv, dm = obs["decl"]
             mask_c = "None" if dm == "absent" else f"(Some {cshape(dm)})"
-            st.add_case("attn", f"CSdpaCheck @sdpa_repaired@ {cbool(kind != 'BSHd')} {cshape(dq)} {cshape(dk)} {cshape(dv)} {mask_c} {cbool(obs['sdpa_fired'])}", (fam, p, obs))
+            st.add_case("attn", f"CSdpaCheck @sdpa_repaired@ @sdpa_strict_static@ {cbool(kind != 'BSHd')} {cshape(dq)} {cshape(dk)} {cshape(dv)} {mask_c} {cbool(obs['sdpa_fired'])}", (fam, p, obs))
             if sym == "H" and "sdpa_repaired" not in st.flags:
                 st.flags["sdpa_repaired"] = not obs["sdpa_fired"]      # the witness class of C19_sdpa_check_as_read_refuted decides the variant
         if fired is None or "shapes" not in obs:
@@ -414,6 +416,27 @@ def fam_sdpa_lowering(st, probe):
         st.add_case("attn", f"CSdpaMha {cbool(kind != 'BSHd')} {cshape(sq)} {cshape(sk)} {cshape(sv)} {observed}", (fam, p, obs))
         if "mha" in obs and ((obs["mha"][1] is None) != (obs["scale"] is None) or (obs["scale"] is not None and abs(obs["mha"][1] - obs["scale"]) > 1e-6)):
             ctx.tie_broken("correspondence", f"{fam}:scale", f"{p}: SDPA scale {obs['scale']} lowered to {obs['mha']}")
+    # the witness of C19_sdpa_mask_symbolic_refuted, always present: symbolic batch (1 at run time), mask [2,3,1,4]
+    gw = G(opset=18)
+    qw = gw.inp("query", "float32", ["B", 3, 2, 2], [1, 3, 2, 2])
+    kw = gw.inp("key", "float32", ["B", 3, 4, 2], [1, 3, 4, 2])
+    vw = gw.inp("value", "float32", ["B", 3, 4, 4], [1, 3, 4, 4])
+    scw = gw.op("Add", [gw.op("Mul", [gw.op("MatMul", [qw, gw.op("Transpose", [kw], perm=[0, 1, 3, 2])]), gw.const(0.3, "float32")]), gw.inp("mask", "float32", [2, 3, 1, 4])])
+    gw.op("Identity", [gw.op("MatMul", [gw.op("Softmax", [scw], axis=-1), vw])], out="y")
+    gw.out("y", "float32", None)
+    seenw = {}
+
+    def fnw2(m):
+        ShapeInferencePass()(m)
+        fuse_sdpa(m, apply_shape_inference=True)
+        seenw["sdpa"] = any(nd.op_type == "SDPA" for nd in m.graph)
+        return replace_sdpa_by_mha(m)
+    probe(st, fam, gw, fnw2, {"witness": "symbolic batch 'B' (1 at run time), mask [2,3,1,4]"},
+          finding="C19:sdpa:static-mask-dim-against-symbolic-score-dim", cls=(fam, "finding", "symbolic-B-mask"))
+    if "sdpa" in seenw:
+        st.flags["sdpa_strict_static"] = not seenw["sdpa"]
+        st.add_case("attn", f"CSdpaCheck @sdpa_repaired@ @sdpa_strict_static@ true {cshape([-2, 3, 2, 2])} {cshape([-2, 3, 4, 2])} {cshape([-2, 3, 4, 4])} (Some {cshape([2, 3, 1, 4])}) {cbool(seenw['sdpa'])}",
+                    (fam, "witness symbolic-B-mask", seenw["sdpa"]))
     if "sdpa_repaired" not in st.flags:
         # no symbolic-head instance was drawn: probe the witness of C19_sdpa_check_as_read_refuted directly
         g = G(opset=18)
